@@ -173,7 +173,12 @@ def mk_objfun(E, m, log, xr=False, raise_at=None):
     return objfun
 
 
-class UserObjfunError(Exception):
+import numpy as _np_for_exc
+
+
+class UserObjfunError(_np_for_exc.linalg.LinAlgError, OverflowError):
+    """exception raised by the user's objective.  It derives from ValueError (via LinAlgError) and OverflowError on purpose:
+    any handler of the library that is broad enough to swallow one of those around an evaluation will swallow it"""
     pass
 
 
